@@ -3,6 +3,7 @@ mod par;
 mod report;
 mod tree;
 mod valmc;
+mod clvmmc;
 mod conv;
 mod optab;
 mod subject;
@@ -39,6 +40,8 @@ fn main() {
     par::install_panic_hook();
     let thorough = tier == "thorough";
     let code = par::with_big_stack(move || match id.as_str() {
+        "C04" => clvmmc::c04(thorough, replay),
+        "C06" => clvmmc::c06(thorough, replay),
         "C07" => conv::c07(thorough, replay),
         "C08" => valmc::c08(thorough, replay),
         "C09" => conv::c09(thorough, replay),
